@@ -40,11 +40,12 @@ const (
 	EvLoopExit
 	EvDefer
 	EvLookup
+	EvMakeSlice
 )
 
 var evNames = map[EvKind]string{EvCall: "call", EvEnter: "enter", EvExit: "exit", EvStore: "store", EvDeref: "deref",
 	EvIndex: "index", EvSlice: "slice", EvTypeAssert: "typeassert", EvDiv: "div", EvMapUpdate: "mapupdate",
-	EvIterEnter: "iter-enter", EvIterExit: "iter-exit", EvLoopEnter: "loop-enter", EvLoopBack: "loop-back", EvLoopExit: "loop-exit", EvDefer: "defer", EvLookup: "lookup"}
+	EvIterEnter: "iter-enter", EvIterExit: "iter-exit", EvLoopEnter: "loop-enter", EvLoopBack: "loop-back", EvLoopExit: "loop-exit", EvDefer: "defer", EvLookup: "lookup", EvMakeSlice: "makeslice"}
 
 type Event struct {
 	Kind   EvKind
@@ -348,7 +349,10 @@ func (en *Engine) runUntilBranch(st *State) ([]*State, *Terminal, error) {
 		case *ssa.MakeSlice:
 			a := en.alloc(st, fr, x, x.Type(), "makeslice", true)
 			fr.env[x] = a
-			st.heap["len:"+a.Key()] = cell{a, en.eval(st, fr, x.Len)}
+			lv, cv := en.eval(st, fr, x.Len), en.eval(st, fr, x.Cap)
+			st.heap["len:"+a.Key()] = cell{a, lv}
+			st.heap["cap:"+a.Key()] = cell{a, cv}
+			st.addEvent(&Event{Kind: EvMakeSlice, Instr: x, X: a, Lo: lv, Hi: cv})
 		case *ssa.MakeChan:
 			fr.env[x] = en.alloc(st, fr, x, x.Type(), "makechan", true)
 		case *ssa.FieldAddr:
